@@ -72,6 +72,7 @@ def tokenize(text):
 
 
 TYPE_ALIAS = {}     # generic parameter -> concrete type (from the spec)
+EXTERN = {}         # struct name -> namespace of another generated file that defines it (and the functions it owns)
 INT_TYPES = {'u8': 8, 'u16': 16, 'u32': 32, 'u64': 64, 'usize': 64}
 
 
@@ -119,9 +120,10 @@ class P:
             self.expect(']')
             return 'bytes' if t == 'u8' else ('slice', t)
         if self.eat('impl') or self.eat('dyn'):
-            self.ty_path()
+            t = self.ty_path()
             while self.eat('+'): self.ty_path()
-            return 'opaque'
+            # `impl RDH` with an alias RDH -> RdhCru in the spec: the concrete type the binary instantiates
+            return t if (isinstance(t, tuple) and t[0] == 'struct' and t[1] in TYPE_ALIAS.values()) else 'opaque'
         return self.ty_path()
 
     def ty_path(self):
@@ -530,7 +532,7 @@ class Items:
                 p.next()
             p.expect('fn'); name = p.ident()
             if p.at('<'): p.skip_balanced('<', '>')
-            p.expect('('); params = []; selfkind = None
+            p.expect('('); params = []; selfkind = None; mutparams = []
             while not p.at(')'):
                 if p.at('&') and (p.peek(1)[1] == 'self' or (p.peek(1)[1] == 'mut' and p.peek(2)[1] == 'self') or (p.peek(1)[0] == 'life')):
                     p.next()
@@ -542,7 +544,9 @@ class Items:
                 elif p.at('mut') and p.peek(1)[1] == 'self':
                     p.next(); p.next(); selfkind = 'val'
                 else:
-                    p.eat('mut'); pn = p.ident(); p.expect(':'); params.append((pn, p.ty()))
+                    p.eat('mut'); pn = p.ident(); p.expect(':')
+                    if p.at('&') and (p.peek(1)[1] == 'mut' or (p.peek(1)[0] == 'life' and p.peek(2)[1] == 'mut')): mutparams.append(pn)
+                    params.append((pn, p.ty()))
                 if not p.eat(','): break
             p.expect(')')
             ret = 'unit'
@@ -556,7 +560,7 @@ class Items:
             if self.in_trait and q in self.fns and not self.fns[q]['trait']:
                 return
             self.fns[q] = dict(params=params, ret=ret, toks=p.t[start:p.i], selfkind=selfkind, owner=owner, name=name,
-                               trait=self.in_trait, const=is_const)
+                               trait=self.in_trait, const=is_const, mutparams=mutparams)
             return
         if v == 'macro_rules':
             p.next(); p.next(); p.ident(); p.skip_balanced('{', '}'); return
@@ -581,7 +585,13 @@ def mask_runs(v):
 
 
 def lean_name(q):
+    owner = q.split('::')[0] if '::' in q else None
+    if owner in EXTERN: return EXTERN[owner] + '.' + q.replace('::', '.')
     return q.replace('::', '.')
+
+
+def lean_struct(n):
+    return EXTERN[n] + '.' + n if n in EXTERN else n
 
 
 LOGS = {'debug', 'info', 'warn', 'error', 'trace'}
@@ -611,10 +621,12 @@ class Tr:
         if ty == 'strings': return 'Rs.Str'
         if ty == 'unit': return 'Unit'
         if ty == 'chunks': return '(List Bytes)'
+        if isinstance(ty, tuple) and ty[0] == 'result' and self.err_is_value(ty):
+            return f'(Rs.ResV {self.lean_ty(ty[2], self_ty)} {self.lean_ty(ty[1], self_ty)})'
         if isinstance(ty, tuple):
             if ty[0] == 'struct':
                 n = self_ty if ty[1] == 'Self' else ty[1]
-                return n
+                return lean_struct(n)
             if ty[0] == 'result': return f'(Rs.Res {self.lean_ty(ty[1], self_ty)})'
             if ty[0] == 'option': return f'(Option {self.lean_ty(ty[1], self_ty)})'
             if ty[0] == 'range': return '(Nat × Nat)'
@@ -622,6 +634,10 @@ class Tr:
             if ty[0] == 'vec' and ty[1] in ('u8', ('struct', 'u8')): return 'Bytes'
             if ty[0] == 'vec': return 'Bytes' if ty[1] == 'opaque' else f'(List {self.lean_ty(ty[1], self_ty)})'
         raise TranslateError(f'type not supported: {ty}')
+
+    def err_is_value(self, ty):
+        """`Result<T, E>` whose error is a plain value (integer, unit), not a message"""
+        return isinstance(ty, tuple) and ty[0] == 'result' and (ty[2] in INT_TYPES or ty[2] == 'unit')
 
     def const_value(self, q, owner):
         """integer value of a constant (for masks); None if not a plain integer constant"""
@@ -718,8 +734,8 @@ class Tr:
                 if f not in fs: continue          # PhantomData
                 s, _ = self.ex(fe, env, fs.get(f) if isinstance(fs.get(f), str) else None)
                 parts.append(f'{self.fld(f)} := {s}')
-            if not parts: return f'({{}} : {sn})', ('struct', sn)
-            return '{ ' + ', '.join(parts) + f' : {sn} }}', ('struct', sn)
+            if not parts: return f'({{}} : {lean_struct(sn)})', ('struct', sn)
+            return '{ ' + ', '.join(parts) + f' : {lean_struct(sn)} }}', ('struct', sn)
         if k == 'tuple':
             parts = [self.ex(x, env) for x in e[1]]
             return '(' + ', '.join(s for s, _ in parts) + ')', ('tuple', [t for _, t in parts])
@@ -750,7 +766,7 @@ class Tr:
         if q in self.it.consts: return self.use_const(q)
         if len(p) == 2 and p[1] in self.it.consts: return self.use_const(p[1])
         if len(p) == 2 and p[0] in self.it.enums:
-            return f'{p[0]}.{p[1]}', ('struct', p[0])
+            return f'{lean_struct(p[0])}.{p[1]}', ('struct', p[0])
         if len(p) == 2 and p[0] in INT_TYPES and p[1] == 'MAX':
             return str(2 ** INT_TYPES[p[0]] - 1), p[0]
         raise TranslateError(f'unknown path {"::".join(path)}')
@@ -863,6 +879,12 @@ class Tr:
         if last in ('Ok', 'Err', 'Some') and len(p) == 1:
             if last == 'Some':
                 s, t = self.ex(args[0], env); return f'(some {s})', ('option', t)
+            fr = env.get('fnret')
+            if self.err_is_value(fr):
+                if last == 'Ok':
+                    s, t = self.ex(args[0], env); return f'(Rs.ResV.ok {s})', fr
+                s, t = self.ex(args[0], env, fr[2] if isinstance(fr[2], str) else None)
+                return f'(Rs.ResV.err {s})', fr
             if last == 'Ok':
                 s, t = self.ex(args[0], env); return f'(Rs.Res.ok {s})', ('result', t, 'string')
             s, t = self.ex(args[0], env)
@@ -892,7 +914,7 @@ class Tr:
                 return self.user_call(q, None, args, env)
         if len(p) == 1 and p[0] in self.it.structs and len(self.it.structs[p[0]]) == len(args):     # tuple struct constructor
             parts = [self.ex(a, env, ft)[0] for a, (_, ft) in zip(args, self.it.structs[p[0]])]
-            return '{ ' + ', '.join(f'{self.fld(f)} := {s}' for (f, _), s in zip(self.it.structs[p[0]], parts)) + f' : {p[0]} }}', ('struct', p[0])
+            return '{ ' + ', '.join(f'{self.fld(f)} := {s}' for (f, _), s in zip(self.it.structs[p[0]], parts)) + f' : {lean_struct(p[0])} }}', ('struct', p[0])
         raise TranslateError(f'call of unknown function {"::".join(path)}')
 
     def user_call(self, q, recv, args, env):
@@ -910,6 +932,9 @@ class Tr:
         if isinstance(ret, tuple) and ret == ('struct', 'Self'): ret = ('struct', f['owner'])
         if f['selfkind'] == 'mut':
             ret = ('tuple', [ret, ('struct', f['owner'])])
+        if f.get('mutparams'):
+            pt = dict(f['params'])[f['mutparams'][0]]
+            ret = pt if ret == 'unit' else ('tuple', [ret, pt])
         return '(' + ' '.join([lean_name(q)] + [f'({s})' for s in parts]) + ')', ret
 
     def range_lit(self, e, env):
@@ -982,7 +1007,7 @@ class Tr:
         if isinstance(t, tuple) and t[0] == 'option':
             if name == 'is_none': return f'({s}.isNone)', 'bool'
             if name == 'is_some': return f'({s}.isSome)', 'bool'
-            if name == 'unwrap': return f'(Rs.unwrapD {s})', t[1]
+            if name in ('unwrap', 'expect'): return f'(Rs.unwrapD {s})', t[1]
             if name in ('as_ref', 'as_mut', 'clone', 'copied'): return s, t
             if name == 'is_some_and':
                 cl = args[0]
@@ -992,8 +1017,8 @@ class Tr:
                 body, _ = self.ex(cl[2], env2)
                 return f'(match {s} with | some {pn} => {body} | none => false)', 'bool'
         if isinstance(t, tuple) and t[0] == 'result':
-            if name == 'is_err': return f'({s}.isErr)', 'bool'
-            if name == 'is_ok': return f'(!{s}.isErr)', 'bool'
+            if name == 'is_err': return f'({s}).isErr', 'bool'
+            if name == 'is_ok': return f'(!({s}).isErr)', 'bool'
         raise TranslateError(f'method .{name}() on {t} not supported')
 
     def fork(self, env):
@@ -1012,8 +1037,10 @@ class Tr:
         if cond[0] == 'iflet':
             pat, scrut = cond[1], cond[2]
             s, t = self.ex(scrut, env)
-            if pat[0] == 'pctor' and pat[1] == ['Err'] and pat[2][0][0] == 'pbind':
-                env2 = self.fork(env); env2['vars'][pat[2][0][1]] = (f'({s}).errStr', 'string')
+            if pat[0] == 'pctor' and pat[1] == ['Err'] and pat[2][0][0] in ('pbind', 'pwild'):
+                env2 = self.fork(env)
+                if pat[2][0][0] == 'pbind':
+                    env2['vars'][pat[2][0][1]] = (f'({s}).errVal', t[2]) if self.err_is_value(t) else (f'({s}).errStr', 'string')
                 return f'({s}).isErr', env2
             if pat[0] == 'pctor' and pat[1] == ['Some'] and pat[2][0][0] == 'pbind' and isinstance(t, tuple) and t[0] == 'option':
                 env2 = self.fork(env); env2['vars'][pat[2][0][1]] = (f'(Rs.unwrapD {s})', t[1])
@@ -1069,7 +1096,7 @@ class Tr:
     def block_value(self, stmts, env, expect=None):
         return self.stmts(list(stmts), env, expect)
 
-    def assigned(self, stmts):
+    def assigned(self, stmts, env=None):
         """variables assigned (not declared) in a statement list, and whether it contains a return"""
         vs, ret = [], False
         declared = set()
@@ -1109,7 +1136,22 @@ class Tr:
                         if n not in declared and n not in vs: vs.append(n)
                     walk_e(st[3])
                 else:
-                    walk_e(st[1])
+                    e = st[1]
+                    if env is not None and e[0] in ('call', 'mcall'):
+                        q = self.callee_of(e, env)
+                        if q and self.it.fns[q].get('mutparams'):
+                            f = self.it.fns[q]
+                            k = [n for n, _ in f['params']].index(f['mutparams'][0])
+                            place = (e[2] if e[0] == 'call' else e[3])[k]
+                            while place[0] in ('ref', 'paren', 'field', 'tfield'): place = place[1]
+                            if place[0] == 'path' and len(place[1]) == 1 and place[1][0] not in declared and place[1][0] not in vs:
+                                vs.append(place[1][0])
+                        if q and self.it.fns[q]['selfkind'] == 'mut' and e[0] == 'mcall':
+                            place = e[1]
+                            while place[0] in ('ref', 'paren', 'field', 'tfield'): place = place[1]
+                            if place[0] == 'path' and len(place[1]) == 1 and place[1][0] not in declared and place[1][0] not in vs:
+                                vs.append(place[1][0])
+                    walk_e(e)
         walk(stmts)
         return vs, ret
 
@@ -1191,6 +1233,8 @@ class Tr:
             return self.ex(e, env, expect)
         if e[0] == 'mcall' and e[2] == 'unwrap':       # ignored results
             return self.stmts(rest, env, expect)
+        if e[0] in ('tfield', 'path', 'unit', 'lit') and rest:      # a value that is not used (e.g. the () of a hoisted call)
+            return self.stmts(rest, env, expect)
         raise TranslateError(f'statement not supported: {e[0]}')
 
     def prepass(self, st, env):
@@ -1209,6 +1253,12 @@ class Tr:
                 inner = hoist(e[1], False)
                 self.tmpn += 1; t = f't_{self.tmpn}'
                 new_lets.append(('let', ('pbind', t), None, ('try', inner)))
+                return ('path', [t])
+            if k == 'mcall' and e[2] == 'replace' and len(e[3]) == 1 and self.is_option(e[1], env):
+                # Option::replace: the old value is returned, the place holds Some(new)
+                self.tmpn += 1; t = f'old_{self.tmpn}'
+                new_lets.append(('let', ('pbind', t), None, e[1]))
+                new_lets.append(('assign', e[1], '=', ('call', ['Some'], [hoist(e[3][0], False)])))
                 return ('path', [t])
             if k == 'mcall' and not top and self.is_mut_call(e, env):
                 recv = e[1]
@@ -1230,6 +1280,15 @@ class Tr:
                 else: out.append(x)
             return tuple(out)
 
+        if st[0] == 'expr' and st[1][0] in ('call', 'mcall'):
+            q = self.callee_of(st[1], env)
+            if q and self.it.fns[q].get('mutparams') and self.it.fns[q]['ret'] == 'unit':
+                f = self.it.fns[q]
+                k = [n for n, _ in f['params']].index(f['mutparams'][0])
+                args = st[1][2] if st[1][0] == 'call' else st[1][3]
+                place = args[k]
+                while place[0] in ('ref', 'paren'): place = place[1]
+                return [('assign', place, '=', ('raw_expr', st[1]))]
         if st[0] == 'let':
             e = st[3]
             if e[0] == 'mutcall': return None
@@ -1258,6 +1317,30 @@ class Tr:
             if e[0] == 'return' and e[1] is not None:
                 ne = ('return', hoist(e[1], False))
             if new_lets: return new_lets + [('expr', ne, st[2])]
+        return None
+
+    def is_option(self, e, env):
+        try:
+            _, t = self.ex(e, env)
+        except TranslateError:
+            return False
+        return isinstance(t, tuple) and t[0] == 'option'
+
+    def callee_of(self, e, env):
+        """qualified name of the user function a call expression refers to (None if it is a builtin)"""
+        if e[0] == 'call':
+            p = [env['owner'] if x == 'Self' else x for x in e[1]]
+            while len(p) > 2: p = p[1:]
+            for q in ('::'.join(p), p[-1], (env['owner'] + '::' + p[-1]) if env['owner'] else None):
+                if q and q in self.it.fns: return q
+            return None
+        try:
+            _, t = self.ex(e[1], env)
+        except TranslateError:
+            return None
+        if isinstance(t, tuple) and t[0] == 'struct':
+            sn = env['owner'] if t[1] == 'Self' else t[1]
+            return sn + '::' + e[2] if sn + '::' + e[2] in self.it.fns else None
         return None
 
     def is_mut_call(self, e, env):
@@ -1380,8 +1463,8 @@ class Tr:
     def if_stmt(self, e, rest, env, expect, is_tail):
         cond, then, els = e[1], e[2], e[3]
         c, env_then = self.cond(cond, env)
-        va, ra = self.assigned(then)
-        vb, rb = self.assigned(els) if els else ([], False)
+        va, ra = self.assigned(then, env_then)
+        vb, rb = self.assigned(els, env) if els else ([], False)
         if not rest:
             # value position
             a, ta = self.stmts(then, self.fork(env_then), expect)
@@ -1397,6 +1480,9 @@ class Tr:
             return f'(if {c} then {a} else {b})', (ta if ta != 'lit' else tb)
         vs = [v for v in va + [x for x in vb if x not in va] if v in env['vars']]
         if not vs:
+            # nothing is assigned and nothing returns: the statement may only be dropped if it has no effect at all
+            if not (self.effect_free(then) and self.effect_free(els or [])):
+                raise TranslateError('an `if` whose branches have effects the translator cannot thread')
             return self.stmts(rest, env, expect)
         def branch(ss, env0):
             # the values of vs after executing ss
@@ -1410,6 +1496,17 @@ class Tr:
         pat = names[0] if len(names) == 1 else '(' + ', '.join(names) + ')'
         return f'(let {pat} := (if {c} then {a} else {b}); {r})', rt
 
+    def effect_free(self, ss):
+        for st in ss:
+            if st[0] == 'let': continue
+            if st[0] == 'expr':
+                e = st[1]
+                if e[0] == 'macro' and (e[1] in LOGS or e[1].startswith('debug_assert') or e[1].startswith('log') or e[1] in ('println', 'eprintln')): continue
+                if e[0] == 'if' and e[1][0] != 'iflet' and self.effect_free(e[2]) and self.effect_free(e[3] or []): continue
+                if e[0] in ('path', 'unit', 'lit', 'tfield'): continue
+            return False
+        return True
+
     def with_rest(self, ss, rest):
         ss = list(ss)
         if ss and ss[-1][0] == 'expr' and ss[-1][1][0] == 'return':
@@ -1420,34 +1517,42 @@ class Tr:
     def function(self, q):
         f = self.it.fns[q]
         owner = f['owner']
-        env = dict(vars={}, consts={}, owner=owner, n=0, const_fn=f.get('const', False))
+        env = dict(vars={}, consts={}, owner=owner, n=0, const_fn=f.get('const', False), fnret=f['ret'])
         params = []
         if f['selfkind']:
-            env['vars']['self'] = ('self_', ('struct', owner)); params.append(f'(self_ : {owner})')
+            env['vars']['self'] = ('self_', ('struct', owner)); params.append(f'(self_ : {lean_struct(owner)})')
         for pn, pt in f['params']:
             env['vars'][pn] = (pn, pt); params.append(f'({pn} : {self.lean_ty(pt, owner)})')
         ret = f['ret']
         if isinstance(ret, tuple) and ret == ('struct', 'Self'): ret = ('struct', owner)
         body = P(f['toks']).block()
         self.cur_mut = f['selfkind'] == 'mut'
+        mp = f.get('mutparams') or []
+        if mp and (self.cur_mut or len(mp) > 1): raise TranslateError('more than one mutable receiver/parameter in ' + q)
         if self.cur_mut:
             body = self.thread_self(body)
+        if mp:
+            body = self.thread_self(body, mp[0], only=(ret == 'unit'))
         s, t = self.stmts(body, env, ret if isinstance(ret, str) else None)
         rty = self.lean_ty(ret, owner)
-        if self.cur_mut: rty = f'({rty} × {owner})'
+        if self.cur_mut: rty = f'({rty} × {lean_struct(owner)})'
+        if mp:
+            pty = self.lean_ty(dict(f['params'])[mp[0]], owner)
+            rty = pty if ret == 'unit' else f'({rty} × {pty})'
         return f'def {lean_name(q)} ' + ' '.join(params) + f' : {rty} :=\n  {s}\n'
 
-    def thread_self(self, body):
-        """`&mut self`: every exit returns (value, self)"""
+    def thread_self(self, body, var='self', only=False):
+        """`&mut self` / a `&mut` parameter: every exit returns (value, var) — or just var when the function returns ()"""
+        TS = 'only_var' if only else 'tuple_self'
         def fix_e(e, tail):
-            if e[0] == 'return' and e[1] is not None: return ('return', ('tuple_self', e[1]))
-            if e[0] == 'return': return ('return', ('tuple_self', ('unit',)))
+            if e[0] == 'return' and e[1] is not None: return ('return', (TS, e[1], var))
+            if e[0] == 'return': return ('return', (TS, ('unit',), var))
             if e[0] == 'if':
                 return ('if', e[1], fix_b(e[2], tail), fix_b(e[3], tail) if e[3] else (fix_b([], tail) if tail else None))
             if e[0] == 'block': return ('block', fix_b(e[1], tail))
             if e[0] == 'match' and tail:
                 return ('match', e[1], [(p, g, ('block', fix_b(b[1] if b[0] == 'block' else [('expr', b, True)], True))) for p, g, b in e[2]])
-            if tail: return ('tuple_self', e)
+            if tail: return (TS, e, var)
             return e
         def fix_b(ss, tail):
             out = []
@@ -1458,7 +1563,7 @@ class Tr:
                     out.append(('expr', fix_e(st[1], last and is_value), st[2]))
                 else: out.append(st)
             if tail and not (ss and ss[-1][0] == 'expr' and (ss[-1][2] or ss[-1][1][0] in ('if', 'match', 'block', 'return'))):
-                out.append(('expr', ('tuple_self', ('unit',)), True))
+                out.append(('expr', (TS, ('unit',), var), True))
             return out
         return fix_b(body, True)
 
@@ -1466,14 +1571,17 @@ class Tr:
 def _ex_extra(self, e, env, expect=None):
     if e[0] == 'raw':
         return e[1], e[2]
-    if e[0] == 'mutcall':
+    if e[0] == 'mutcall' or e[0] == 'raw_expr':
         return _orig_ex(self, e[1], env, expect)
     if e[0] == 'tuple_vars':
         vals = [env['vars'][v][0] for v in e[1]]
         return (vals[0] if len(vals) == 1 else '(' + ', '.join(vals) + ')'), 'opaque'
     if e[0] == 'tuple_self':
+        var = e[2] if len(e) > 2 else 'self'
         s, t = self.ex(e[1], env, expect)
-        return f'({s}, {env["vars"]["self"][0]})', ('tuple', [t, ('struct', env['owner'])])
+        return f'({s}, {env["vars"][var][0]})', ('tuple', [t, env['vars'][var][1]])
+    if e[0] == 'only_var':
+        return env['vars'][e[2]]
     return None
 
 
@@ -1487,6 +1595,9 @@ Tr.ex = _ex
 
 def generate(spec, repo):
     TYPE_ALIAS.clear(); TYPE_ALIAS.update(spec.get('type_alias', {}))
+    EXTERN.clear()
+    for ns, names in spec.get('extern', {}).items():
+        for n in names: EXTERN[n] = ns
     items = Items()
     for f in spec['files']:
         path = os.path.join(repo, f)
@@ -1506,15 +1617,20 @@ def generate(spec, repo):
         progress = False
         for q in list(todo) + [x for x in tr.wanted_fns if x not in todo]:
             if q in texts: continue
+            if items.fns[q]['owner'] in EXTERN:        # defined by another generated file
+                texts[q] = None; continue
             texts[q] = tr.function(q); progress = True
         for q in list(tr.used_consts):
             if q in texts: continue
+            if '::' in q and q.split('::')[0] in EXTERN:
+                texts[q] = None; continue
             ty, e = items.consts[q]
             if e is None: raise TranslateError('constant not translatable: ' + q)
             owner = q.split('::')[0] if '::' in q else None
             env = dict(vars={}, consts={}, owner=owner, n=0)
             sx, t = tr.ex(e, env, ty if isinstance(ty, str) else None)
             texts[q] = f'def {lean_name(q)} : {tr.lean_ty(ty, owner)} := {sx}\n'; progress = True
+    texts = {q: t for q, t in texts.items() if t is not None}
     # order: what a definition uses comes first
     names = list(texts)
     deps = {}
@@ -1532,6 +1648,7 @@ def generate(spec, repo):
     used_structs = []
     alltext = '\n'.join(texts.values())
     for sn in list(items.structs) + list(items.enums):
+        if sn in EXTERN: continue
         if re.search(r'(?<![A-Za-z0-9_.])' + re.escape(sn) + r'(?![A-Za-z0-9_])', alltext) or sn in spec.get('structs', []):
             used_structs.append(sn)
     # a struct that has another struct as a field comes after it
@@ -1543,7 +1660,7 @@ def generate(spec, repo):
         changed = False
         for sn in list(used_structs):
             for d in sdeps(sn):
-                if d in items.structs or d in items.enums:
+                if (d in items.structs or d in items.enums) and d not in EXTERN:
                     if d not in used_structs: used_structs.append(d); changed = True
     sorder, sseen = [], set()
     def svisit(sn):
@@ -1558,6 +1675,7 @@ def generate(spec, repo):
     for f in spec['files']: L.append('   ' + f)
     L.append('-/')
     L.append('import FastPasta.Spec.RsPrelude')
+    for m in spec.get('imports', []): L.append('import ' + m)
     L.append('set_option linter.unusedVariables false')
     L.append('namespace FastPasta')
     L.append('namespace ' + spec['namespace'])
